@@ -8,6 +8,7 @@ import (
 	"fmt"
 	"math/rand"
 	"os"
+	"strings"
 	"sync"
 	"sync/atomic"
 	"time"
@@ -105,6 +106,24 @@ func runCtxProg(rep *Report, cc ctxCase, closedAt *sync.Map) {
 			peerSendMsg(true)
 		case st.Op == "read" && st.When == "midMessage":
 			peerSendMsg(false)
+		case st.Op == "read" && strings.HasPrefix(st.When, "partialHeader"):
+			// one transport write: a complete small message plus the first k bytes of the next frame's header (64-bit length form)
+			k := 2
+			fmt.Sscanf(st.When, "partialHeader%d", &k)
+			f1 := ws.Frame{Fin: true, Op: ws.OpText, Masked: !cc.Client, Key: [4]byte{4, 3, 2, 1}, Payload: []byte("hi")}
+			f2 := ws.Frame{Fin: true, Op: ws.OpBin, Masked: !cc.Client, Key: [4]byte{1, 2, 3, 4}, Payload: make([]byte, 70000)}
+			e2 := f2.Encode()
+			hdr := len(e2) - 70000
+			if k >= hdr {
+				k = hdr - 1
+			}
+			raw.Out.Write(append(f1.Encode(), e2[:k]...))
+			hctx, hcancel, _ := newCtx()
+			_, _, perr := c.Read(hctx)
+			hcancel()
+			if perr != nil {
+				return fmt.Errorf("setup: the message in front of the partial header was not delivered: %w", perr), 0, id
+			}
 		case (st.Op == "write" || st.Op == "writer") && st.When == "whileBlocked":
 			atomic.StoreInt32(&pauseDrain, 1) // zero window: the peer stops reading
 			raw.In.Cap = 1
@@ -254,6 +273,10 @@ func runCtxProg(rep *Report, cc ctxCase, closedAt *sync.Map) {
 	for i, st := range cc.Row.Steps {
 		err, dur, _ := doCall(st)
 		last := i == len(cc.Row.Steps)-1
+		if err != nil && strings.HasPrefix(err.Error(), "setup:") {
+			rep.miss("ctxprog-setup-failed", cc, fmt.Sprintf("step %d %s/%s: %v", i, st.Op, st.When, err)) // not a verdict of any property
+			return
+		}
 		if st.When == "afterSuccess" {
 			if err != nil {
 				rep.miss("call-failed-after-earlier-contexts-were-cancelled", cc, fmt.Sprintf("step %d %s: %v", i, st.Op, err))
